@@ -208,6 +208,11 @@ func execSched(r *row, dir string, chain bool) bool {
 	for i := range r.Runs {
 		tasks[i] = buildTask(i+1, r.Runs[i], log)
 		st := &scheduler.Stage{Name: tasks[i].Name, Task: tasks[i], AllowFailure: true}
+		if i%2 == 1 {
+			// stage-level settings (as every stage built from a configuration file has): the stage runs
+			// a private copy of its task
+			st.Variables = variables.FromMap(map[string]string{".Stage.Name": tasks[i].Name})
+		}
 		if chain && i > 0 {
 			st.DependsOn = []string{tasks[i-1].Name}
 		}
@@ -229,6 +234,9 @@ func execSched(r *row, dir string, chain bool) bool {
 	sd.Finish()
 	r.Rets = make([]string, len(r.Runs))
 	for i, t := range tasks {
+		if c := stages[i].Task; c != nil {
+			t = c // the task the stage actually ran (a copy when the stage has settings of its own)
+		}
 		switch {
 		case t.Skipped:
 			r.Rets[i] = "skipped"
